@@ -70,6 +70,23 @@ func genAdapter(seed uint64, tier string, pECDSA float64) AdapterCfg {
 	if r.Bool(0.2) && backend == "eddsa" {
 		c.Steal = ids[r.Intn(n)]
 	}
+	// a third of the runs: small non-contiguous identifiers (drawn last: the other choices of a seed stay)
+	if r.Bool(0.33) {
+		seen := map[uint16]bool{}
+		var sp []uint16
+		for len(sp) < n {
+			id := uint16(r.Range(1, 60))
+			if !seen[id] {
+				seen[id] = true
+				sp = append(sp, id)
+			}
+		}
+		sort.Slice(sp, func(i, j int) bool { return sp[i] < sp[j] })
+		if c.Steal != 0 {
+			c.Steal = sp[c.Steal-1]
+		}
+		c.Deploy.IDs = sp
+	}
 	return c
 }
 
@@ -392,7 +409,7 @@ func runC19(t *testing.T, spec RunSpec) *RunResult {
 	if cfg.Deploy.Silent {
 		mode = "silent"
 	}
-	res.ConfigKey = fmt.Sprintf("%s n=%d t=%d %s digestlen=%d lead0=%v steal=%v", cfg.Deploy.Backend, cfg.N, cfg.T, mode, len(cfg.Digest), len(cfg.Digest) > 0 && cfg.Digest[0] == 0, cfg.Steal != 0)
+	res.ConfigKey = fmt.Sprintf("%s n=%d t=%d %s digestlen=%d lead0=%v steal=%v sparse-ids=%v", cfg.Deploy.Backend, cfg.N, cfg.T, mode, len(cfg.Digest), len(cfg.Digest) > 0 && cfg.Digest[0] == 0, cfg.Steal != 0, int(cfg.Deploy.IDs[len(cfg.Deploy.IDs)-1]) != len(cfg.Deploy.IDs))
 	out := runAdapter(t, spec, cfg, res)
 	for _, v := range out.violations {
 		v.Invariant = "C19/" + v.Invariant
